@@ -418,6 +418,8 @@ impl<'a> BlobRef<'a> {
                             backtrack_data_idx += 1;
                             data_idx = backtrack_data_idx;
                             pattern_idx = backtrack_pattern_idx;
+                            // the pattern is read again from the byte after the %: that byte is not escaped
+                            in_escape = false;
                             continue;
                         }
                         return false;
